@@ -321,7 +321,10 @@ def link_sly_confinement(ctx):
 IMMUTABLE_MODULE_LEVEL_CTORS = ("TypeVar", "typing.TypeVar", "frozenset", "tuple", "re.compile", "MappingProxyType", "types.MappingProxyType", "namedtuple",
                                 "collections.namedtuple", "NamedTuple", "typing.NamedTuple", "NewType", "typing.NewType", "Fraction", "fractions.Fraction", "Decimal",
                                 "decimal.Decimal", "str", "int", "float", "bytes", "range", "object", "struct.Struct", "operator.itemgetter", "operator.attrgetter",
-                                "confloat", "conint", "constr", "conlist", "Field", "pydantic.Field", "logging.getLogger", "getLogger")
+                                "confloat", "conint", "constr", "conlist", "Field", "pydantic.Field", "logging.getLogger", "getLogger",
+                                # calls that return an immutable number: a clock reading or a size taken at import time is a constant afterwards
+                                "time.perf_counter", "time.perf_counter_ns", "time.monotonic", "time.monotonic_ns", "time.time", "time.time_ns", "time.process_time",
+                                "perf_counter", "monotonic", "len", "sum", "min", "max", "abs", "round", "bool", "os.getpid", "complex", "hash", "id", "ord", "chr", "repr", "format")
 
 
 PROCESS_GLOBAL_CALLS = {
